@@ -1,7 +1,8 @@
 package main
 
 // Command `list` (C05): listings of repositories, tags and referrers through stacks of
-// ocimem / ociclient+ociserver hops / ocifilter.Select / ocifilter.Sub / ociunify / ocidebug.
+// ocimem / ociclient+ociserver hops / ocifilter.Select / ocifilter.Sub / ociunify / ocidebug
+// (and a harness-made source whose listings fail part-way).
 //
 // A case is a stack (tree of nodes, the same records spec/OciList.tla uses), the contents of
 // its in-memory registries, a start string and a consumer stop point k.  Cases come from TLC
@@ -52,6 +53,7 @@ type lNode struct {
 	P      []int  `json:"p,omitempty"` // select: admitted elements
 	Lo     int    `json:"lo,omitempty"`
 	Cnt    int    `json:"cnt,omitempty"`
+	At     int    `json:"at,omitempty"` // fail: listings fail on reaching an element >= At
 	X      *lNode `json:"x,omitempty"`
 	Y      *lNode `json:"y,omitempty"`
 }
@@ -77,6 +79,8 @@ func (n *lNode) abstract() ev {
 		return ev{"t": "unify", "x": n.X.abstract(), "y": n.Y.abstract()}
 	case "debug":
 		return ev{"t": "debug", "x": n.X.abstract()}
+	case "fail":
+		return ev{"t": "fail", "at": n.At, "x": n.X.abstract()}
 	}
 	panic("bad node type " + n.T)
 }
@@ -96,6 +100,8 @@ func (n *lNode) String() string {
 		return fmt.Sprintf("sub:%d+%d(%v)", n.Lo, n.Cnt, n.X)
 	case "unify":
 		return fmt.Sprintf("unify(%v,%v)", n.X, n.Y)
+	case "fail":
+		return fmt.Sprintf("fail:%d(%v)", n.At, n.X)
 	}
 	return n.T + "(" + n.X.String() + ")"
 }
@@ -365,6 +371,16 @@ func (st *lStack) build(c *lCase, n *lNode, univ []string, prefix string, refs [
 			}
 		}
 		return ocifilter.Select(x, func(name string) bool { return allowed[name] }), nil
+	case "fail":
+		x, err := st.build(c, n.X, univ, prefix, refs)
+		if err != nil {
+			return nil, err
+		}
+		f := &lFailing{Interface: x, never: n.At < 1 || n.At > len(univ)}
+		if !f.never {
+			f.from = univ[n.At-1]
+		}
+		return f, nil
 	case "sub":
 		under := univ
 		if c.Kind == "repos" {
@@ -391,6 +407,40 @@ func (st *lStack) build(c *lCase, n *lNode, univ []string, prefix string, refs [
 		return st.node("unify(mem,mem)", x, y)
 	}
 	return nil, fmt.Errorf("unknown node type %q", n.T)
+}
+
+// lFailing is a registry whose listings fail with ErrDenied when they reach a name (for
+// referrers: a digest) at or beyond `from`: a source that delivers some items and then an
+// error.  The iterators are lazy: nothing happens until they are run.
+type lFailing struct {
+	ociregistry.Interface
+	from  string
+	never bool
+}
+
+func lFailSeq[T any](f *lFailing, mk func() ociregistry.Seq[T], name func(T) string) ociregistry.Seq[T] {
+	return func(yield func(T, error) bool) {
+		mk()(func(x T, err error) bool {
+			if err == nil && !f.never && name(x) >= f.from {
+				yield(*new(T), fmt.Errorf("listing source fails at %q: %w", name(x), ociregistry.ErrDenied))
+				return false
+			}
+			return yield(x, err)
+		})
+	}
+}
+
+func (f *lFailing) Repositories(ctx context.Context, startAfter string) ociregistry.Seq[string] {
+	return lFailSeq(f, func() ociregistry.Seq[string] { return f.Interface.Repositories(ctx, startAfter) }, func(s string) string { return s })
+}
+
+func (f *lFailing) Tags(ctx context.Context, repo, startAfter string) ociregistry.Seq[string] {
+	return lFailSeq(f, func() ociregistry.Seq[string] { return f.Interface.Tags(ctx, repo, startAfter) }, func(s string) string { return s })
+}
+
+func (f *lFailing) Referrers(ctx context.Context, repo string, d ociregistry.Digest, artifactType string) ociregistry.Seq[ociregistry.Descriptor] {
+	return lFailSeq(f, func() ociregistry.Seq[ociregistry.Descriptor] { return f.Interface.Referrers(ctx, repo, d, artifactType) },
+		func(d ociregistry.Descriptor) string { return string(d.Digest) })
 }
 
 // lPopulate fills one in-memory registry: repositories need content to be listed, tags
@@ -766,6 +816,9 @@ func (n *lNode) maxElem() int {
 	if n.T == "sub" && n.Lo+n.Cnt > m {
 		m = n.Lo + n.Cnt
 	}
+	if n.T == "fail" && n.At > m {
+		m = n.At
+	}
 	for _, c := range []*lNode{n.X, n.Y} {
 		if k := c.maxElem(); k > m {
 			m = k
@@ -935,6 +988,14 @@ func randCase(rnd *rand.Rand, maxU int) *lCase {
 			if c.Kind != "repos" && rnd.Intn(8) == 0 {
 				m.S, m.Absent = nil, true
 			}
+			if size > 0 && rnd.Intn(5) == 0 {
+				// a source that fails part-way, often seen through ocidebug
+				f := &lNode{T: "fail", At: 1 + rnd.Intn(size), X: m}
+				if rnd.Intn(2) == 0 {
+					return &lNode{T: "debug", X: f}
+				}
+				return f
+			}
 			return m
 		}
 		switch {
@@ -957,6 +1018,9 @@ func randCase(rnd *rand.Rand, maxU int) *lCase {
 		}
 	}
 	c.Node = gen(1+rnd.Intn(3), n)
+	if strings.Contains(c.Node.String(), "fail") && rnd.Intn(2) == 0 {
+		c.Node = &lNode{T: "debug", X: c.Node}
+	}
 	if withSub {
 		// the Sub sits on the spine; above it only nodes that see the view's names
 		c.Node = &lNode{T: "sub", Lo: lo, Cnt: cnt, X: c.Node}
